@@ -274,8 +274,8 @@ def c10_cases(tier, seed):
     cases = []
     flagsets = ["create,fix", "fix", "update", "trim", "create,fix,update,trim"]
 
-    def add(name, setup, old, new, utexts, markers, u_correct, flags, whole=None, inner_expect=None, survive=None):
-        src = C10_HDR + setup + f"\n\ndef test_a():\n    assert {new} == snapshot({old})\n"
+    def add(name, setup, old, new, utexts, markers, u_correct, flags, whole=None, inner_expect=None, survive=None, stmt="assert {new} == snapshot({old})"):
+        src = C10_HDR + setup + "\n\ndef test_a():\n    " + stmt.format(new=new, old=old) + "\n"
         cases.append(dict(prop="C10", name=name, src=src, flags=flags, utexts=utexts, markers=markers, u_correct=u_correct, whole=whole,
                           inner_expect=inner_expect, survive=survive, old=old, new=new))
 
@@ -347,6 +347,17 @@ def c10_cases(tier, seed):
                                 survive=True if forced else None)
                             if container == "dict" and not correct:
                                 cases[-1]["sib_keys"] = [f"k{i}" for i in range(len(so) + 1) if i != pos]
+    # --- the other ways a snapshot is used: never compared (only `update` can be pending), and `in` (members are tested one by one)
+    for kname, setup, utext, uval_ok, uval_bad in kinds:
+        for container in ["list", "tuple", "dict", "dc"]:
+            old = wrap(container, utext, ["0+1", "3"], 0 if container == "dc" else 1)
+            for fl in (flagsets if tier == "thorough" or kname in ("Is", "fstr") else [rng.choice(flagsets)]):
+                add(f"{kname}/{container}/never-compared", setup, old, "None", [utext], ["dyn_a"], False, fl, survive=True, stmt="s = snapshot({old})")
+        for item, tested in [(uval_ok, True), ("1", False), ("9", False)]:
+            for fl in (flagsets if tier == "thorough" or kname in ("Is", "fstr") else [rng.choice(flagsets)]):
+                # an untested member may be trimmed together with its element; otherwise the text must survive
+                add(f"{kname}/in/{item}", setup, f"[0+1, {utext}, 3]", item, [utext], ["dyn_a"], False, fl,
+                    survive=True if (tested or "trim" not in fl) else None, stmt="assert {new} in snapshot({old})")
     # --- length changes around an unmanaged element
     for kname, setup, utext, uval_ok, uval_bad in kinds[:1] + kinds[3:4]:
         for old_sibs, new_sibs, upos_old, upos_new in [
@@ -367,8 +378,18 @@ def c10_cases(tier, seed):
         ("star_tuple", "dyn_l = [4]", "(*dyn_l, 0+1)", ["(4, 1)", "(4, 2)", "(1,)"]),
         ("star_dict", "dyn_d = {'z': 0}", '{**dyn_d, "k": 0+1}', ["{'z': 0, 'k': 1}", "{'z': 0, 'k': 2}", "{'k': 1}", "{'z': 0, 'k': 1, 'n': 3}"]),
         ("star_dict_last", "dyn_d = {'z': 0}", '{"k": 0+1, **dyn_d}', ["{'k': 1, 'z': 0}", "{'k': 5, 'z': 0}"]),
+        # the star-expression contributes more / fewer entries than it has source positions
+        ("star_dict_two", "dyn_d = {'y': 0, 'z': 0}", '{"k": 0+1, **dyn_d}', ["{'k': 1, 'y': 0, 'z': 0}", "{'k': 5, 'y': 0, 'z': 0}", "{'k': 1}"]),
+        ("star_dict_none", "dyn_d = {}", '{**dyn_d, "k": 0+1}', ["{'k': 1}", "{'k': 5}", "{'k': 1, 'n': 2}"]),
+        ("star_list_two", "dyn_l = [4, 5]", "[0+1, *dyn_l]", ["[1, 4, 5]", "[2, 4, 5]", "[1]"]),
+        ("star_list_none", "dyn_l = []", "[*dyn_l, 0+1]", ["[1]", "[2]", "[1, 3]"]),
         ("star_call", "dyn_l = [4]", "DC(*dyn_l, b=[0+1])", ["DC(a=4, b=[1])", "DC(a=4, b=[2])", "DC(a=5)"]),
         ("starstar_call", "dyn_d = {'a': 4}", "DC(**dyn_d, b=[0+1])", ["DC(a=4, b=[1])", "DC(a=4, b=[2, 3])"]),
+        # the star-expression behind other arguments of the call (positional, keyword, keyword at its default value)
+        ("call_pos_starstar", "dyn_d = {'b': [1]}", "DC(0+4, **dyn_d)", ["DC(a=4, b=[1])", "DC(a=5, b=[1])", "DC(a=4, b=[2])"]),
+        ("call_kw_starstar", "dyn_d = {'b': [1]}", "DC(a=0+4, **dyn_d)", ["DC(a=4, b=[1])", "DC(a=5, b=[1])"]),
+        ("call_defaultkw_starstar", "dyn_d = {'a': 4}", "DC(b=[], **dyn_d)", ["DC(a=4)", "DC(a=4, b=[2])", "DC(a=5)"]),
+        ("call_kw_star", "dyn_l = [4]", "DC(b=[0+1], *dyn_l)", ["DC(a=4, b=[1])", "DC(a=4, b=[2])"]),
         ("star_nested", "dyn_l = [4]", '{"outer": [*dyn_l, 0+1], "m": 0+2}', ["{'outer': [4, 1], 'm': 2}", "{'outer': [4, 5], 'm': 3}"]),
     ]
     for name, setup, old, news in stars:
